@@ -111,28 +111,28 @@ func contract_Export_ClearPresent(e Export, part *uint32, num uint32) {
 
 // @ props C11
 func contract_presence_Present(p presence, num uint32) (r bool) {
-	requires(specElem(p, num) != nil)
+	domain(specElem(p, num) != nil) // the bitmap pointer is set whenever a field has a presence index (table invariant)
 	ensures(r == specBit(p, num))
 	return
 }
 
 // @ props C11
 func contract_presence_SetPresent(p presence, num uint32, size presenceSize) {
-	requires(specElem(p, num) != nil)
+	domain(specElem(p, num) != nil) // the bitmap pointer is set whenever a field has a presence index (table invariant)
 	modifiesPtr(specElem(p, num))
 	ensures(specBit(p, num))
 }
 
 // @ props C11
 func contract_presence_SetPresentUnatomic(p presence, num uint32, size presenceSize) {
-	requires(specElem(p, num) != nil)
+	domain(specElem(p, num) != nil) // the bitmap pointer is set whenever a field has a presence index (table invariant)
 	modifiesPtr(specElem(p, num))
 	ensures(specBit(p, num))
 }
 
 // @ props C11
 func contract_presence_ClearPresent(p presence, num uint32) {
-	requires(specElem(p, num) != nil)
+	domain(specElem(p, num) != nil) // the bitmap pointer is set whenever a field has a presence index (table invariant)
 	modifiesPtr(specElem(p, num))
 	ensures(!specBit(p, num))
 }
@@ -248,7 +248,7 @@ func contract_MessageInfo_unmarshalExtension(mi *MessageInfo, b []byte, num prot
 // @ guard-errors
 // @ nopanic
 func contract_appendMapItem(b []byte, keyrv, valrv reflect.Value, mapi *mapInfo, f *coderFieldInfo, opts marshalOptions) (r []byte, err error) {
-	requires(mapi != nil && f != nil)
+	domain(mapi != nil && f != nil) // set for every map field by the table constructor
 	modifiesAll()
 	return
 }
@@ -262,7 +262,7 @@ func contract_appendMapItem(b []byte, keyrv, valrv reflect.Value, mapi *mapInfo,
 // @ props C16
 // @ mode int
 func contract_MessageInfo_init(mi *MessageInfo) {
-	requires(mi != nil && mi.initDone != 0)
+	domain(mi != nil && mi.initDone != 0) // an already initialised MessageInfo (first-use initialisation is reflection)
 }
 
 // The cache cell holds size+1 after sizePointerSlow, or 0 when the size does not fit: a value
@@ -293,7 +293,7 @@ func specRecomputed(size int) bool { return true }
 // @ mode int
 // @ nopanic
 func contract_MessageInfo_sizePointer(mi *MessageInfo, p pointer, opts marshalOptions) (size int) {
-	requires(mi != nil && mi.initDone != 0)
+	domain(mi != nil && mi.initDone != 0) // an already initialised MessageInfo (first-use initialisation is reflection)
 	modifiesAll()
 	ensures(imp(p.p == nil, size == 0))
 	ensures(imp(p.p != nil && opts.UseCachedSize() && old(mi.sizecacheOffset.IsValid()) && old(*p.Apply(mi.sizecacheOffset).Int32()) > 0,
